@@ -24,6 +24,21 @@ CLAIMED = {
    text="All 16 275 (thorough 406 901) certificate sequences over 25 certificates covering the 19 CDDL kinds, crossed with 3 withdrawal maps, 3 proposal lists and a 5x5 grid of (key_deposit, pool_deposit) including 2^63 and 2^64-1: get_deposit/get_implicit_input on the body, TransactionBuilder::get_deposit/get_implicit_input for the same content, and the harness's ledger table must agree three ways; totals above 2^64-1 must be Err everywhere.",
    note="Trusted: the deposit/refund table transcribed from the Conway ledger rules. Pool registrations counted as first registrations.",
    design="DESIGN.md §3 C20"),
+ "C01": dict(
+   technique="bounded-exhaustive enumeration (E1 choice tree with deviation bound) of generated values of 68 root types, every nested codec value visited; full presence products for body (2^18) and witness set (2^6)",
+   text="For each of 68 root types all values within 2 (thorough 3) deviations of the simplest value - non-default variant, present optional field, non-zero CBOR width class of each integer, collection size 0/1/2/25 - are built through the public constructors; every nested value of a codec type is round-tripped on its own as well (to_bytes -> independent well-formedness parse -> from_bytes == value -> identical re-encoding -> hex entry points identical). Plus all 262 144 presence combinations of the optional body fields, all 64 of the witness set, and the <=3-deviation neighbourhoods of the all-absent and all-present ProtocolParamUpdate.",
+   note="Trusted: refcbor (well-formedness), the types' PartialEq. Present-but-empty optional collections compared through bytes and a second round trip. Stand-alone PlutusScript(s) compared on bytes (the wire form has no language). Depth <= 3.",
+   design="DESIGN.md §3 C01"),
+ "C07": dict(
+   technique="bounded-exhaustive enumeration (E1): full product of output shapes x coins-per-byte values derived per output to hit every CBOR width boundary, on min_ada_for_output, the output builder's min-coin helper and TransactionBuilder::add_output",
+   text="4.4 M outputs (7 address kinds incl. a 76-byte Byron address and a malformed one x 32 coins x 69 asset bundles with names of every length 0..32 x datum options x script-ref options) x 24 coins-per-byte values computed per output so that the required coin lands on/around 24, 256, 65536, 2^32 and the u64 overflow edge: the returned coin must satisfy coin >= cpb*(160+size) for the output as carried (size measured by the independent CBOR reader) and must not exceed the bound with an 8-byte coin; add_output must never accept an output below the bound or above max_value_size; the output builder's min-coin helper must create conforming outputs.",
+   note="Function part and output builder / add_output acceptance are complete; outputs of built transactions (change, collateral return, mint helpers) are covered by the builder exploration when it is registered for C07. Trusted: refcbor sizes, the Babbage min-UTxO formula.",
+   design="DESIGN.md §3 C07"),
+ "C17": dict(
+   technique="bounded-exhaustive enumeration (E1): generated typed values through to_json/from_json; metadata and JSON trees to depth 3 per schema against a reference JSON->metadata conversion; Plutus data through detailed JSON; every byte length 0..200 through the chunk helpers",
+   text="(a) every generated typed value of C01 through to_json -> from_json (equal value, equal bytes, JSON a fixpoint); (b) metadata trees (5 kinds, maps with keys of every kind) -> JSON -> metadata under NoConversions and DetailedSchema; (c) JSON documents in each schema's normal form -> metadata -> JSON, with the metadata compared against the harness's own reference conversion, and ~40 documents one step outside each schema that must be rejected; (d) Plutus data of all five kinds, constructor alternatives across the tag boundaries, big integers up to 2^512 through detailed JSON; (e) every length 0..=200 through encode/decode_arbitrary_bytes.",
+   note="Trusted: serde_json for parsing test documents, ref_encode (reference conversion). Insertion-ordered maps are filled in ascending key order. Three known findings (Plutus script JSON drops the language; malformed-address JSON is not read back; Byron address with unknown magic has no default Bech32/JSON form).",
+   design="DESIGN.md §3 C17"),
 }
 
 PENDING_REASON = "check not built yet in this session (work in progress; see DESIGN.md §8 construction order)"
